@@ -524,21 +524,24 @@ def damp_table(newivar):
     good = [i for i, v in enumerate(newivar) if v != 0]
     if not good or len(good) == n:
         return []
-    mingood, maxgood = good[0], good[-1]
+    # `mingood`/`maxgood` are numpy int64 scalars in the source (goodpts.min()/.max()); under NumPy 2 promotion an int64
+    # scalar is not "weak", so `pixels - mingood` is float64 although `pixels` is float32.  A Python int here would keep
+    # the arithmetic in float32 and the taper would differ by ~3e-3 relative in its deep tail (1 + erf(x), x < -2).
+    mingood, maxgood = np.int64(good[0]), np.int64(good[-1])
     pixels = np.arange(n, dtype='f')
     tbl = {}
     if mingood > 0:
         d = min(mingood, 250)
         vals = 0.5 * (1.0 + erf((pixels - mingood) / float(d)))
         for i in range(n):
-            tbl[Fraction(i - mingood, d)] = Fraction(float(vals[i]))
+            tbl[Fraction(i - int(mingood), int(d))] = Fraction(float(vals[i]))
     if maxgood < n - 1:
         # maxgood == 0 (only pixel 0 is good): the source divides by min(maxgood, l) = 0.0 (NaN, flagged before Coq) or, with
         # fixes/C11-damp-only-first-pixel-good.diff, by max(..., 1); the model takes the floor from Generated/Combine1fiber.v
         d = max(min(maxgood, 250), 1)
         vals = 0.5 * (1.0 + erf((maxgood - pixels) / float(d)))
         for i in range(n):
-            tbl[Fraction(maxgood - i, d)] = Fraction(float(vals[i]))
+            tbl[Fraction(int(maxgood) - i, int(d))] = Fraction(float(vals[i]))
     return sorted(tbl.items())
 
 
